@@ -162,6 +162,17 @@ def run(ctx):
         if r['status'] in ('differ', 'implerror', 'modelerror'):
             res['counterexamples'].append({'key': 'c04:structure:' + r['program'].replace('\n', ' '), 'what': 'HeadFormula.translate and the model Model/HeadDefs.v differ: %s' % r.get('what'),
                                            'input': {'head_structure': [[p_, list(els)] for p_, els in rules], 'H': 3, 'program': r['program']}})
+    # ... and to horizon 7 for head formulas with counts larger than small horizons, deep nestings and operators that stay pending over many steps
+    a_, b_ = ('atom', 'a'), ('atom', 'b')
+    lcs = [[('initial', [f])] for f in [('next', 5, a_), ('wnext', 6, ('or', a_, b_)), ('or', ('next', 4, a_), ('wnext', 7, b_)), ('until', a_, ('next', 3, b_)), ('release', ('next', 2, a_), b_),
+                                        ('next', 2, ('next', 3, ('or', a_, ('wnext', 2, b_)))), ('and', ('until', None, a_), ('release', None, ('or', b_, ('next', 4, a_)))), ('seqnext', a_, ('seqnext', b_, ('seqnext', a_, b_)))]]
+    lcs += [[('always', [('or', ('next', 3, a_), b_)])], [('dynamic', [('wnext', 4, a_)])], [('always', [('until', a_, ('next', 2, b_))]), ('initial', [('release', None, ('next', 5, a_))])]]
+    lrecs = hdstruct.compare(ctx, lcs, 7)
+    for rules, r in zip(lcs, lrecs):
+        hstat[r['status'] + '/horizon-7'] = hstat.get(r['status'] + '/horizon-7', 0) + 1
+        if r['status'] in ('differ', 'implerror', 'modelerror'):
+            res['counterexamples'].append({'key': 'c04:structure7:' + r['program'].replace('\n', ' '), 'what': 'HeadFormula.translate and the model Model/HeadDefs.v differ (horizon 7): %s' % r.get('what'),
+                                           'input': {'head_structure': [[p_, list(els)] for p_, els in rules], 'H': 7, 'program': r['program']}})
     drecs = hdstruct.domain_compare(ctx, hcs)
     dstat = {}
     for r in drecs:
@@ -169,7 +180,7 @@ def run(ctx):
         if r['status'] != 'agree':
             res['counterexamples'].append({'key': 'c04:domain:' + r['program'].replace('\n', ' '), 'what': 'domain rule of the head formula and Model/HeadDomain.entries differ: %s' % r.get('what'),
                                            'input': {'head_domain': [[p_, list(els)] for p_, els in r['rules']], 'program': r['program']}})
-    res['coverage']['evaluations'] += len(hrecs) + len(drecs)
+    res['coverage']['evaluations'] += len(hrecs) + len(drecs) + len(lrecs)
     res['coverage']['head_domain_status_histogram'] = dstat
     res['coverage']['head_domain_entries_compared'] = sum(r['entries'] for r in drecs)
     res['coverage']['head_structure_status_histogram'] = hstat
